@@ -312,3 +312,76 @@ def replay_tokens_unmasked(level, q, v):
 
     walk(root)
     return ("parse(" + repr(doc) + ")", bool(bad), f"an internal placeholder character appears in the tree: {bad[:2]}")
+
+
+# ---------------------------------------------------------------- to_wikitext() is total on the nodes parse() feeds it
+# parse() renders the non-string children of a TABLE / TABLE_ROW back to wikitext (check_for_attributes) to decide whether
+# they form an attribute section: an exception in to_wikitext() is an exception out of parse().
+from wikitextprocessor.node_expand import to_wikitext
+
+TW_KINDS = [k for k in NodeKind if k != NodeKind.ROOT]
+TW_TAGS = ["span", "br", "hl", "foo", "b", "ref"]  # allowed paired / void tags, the stray-end-tag case "hl", an extension tag
+TW_SRC = {
+    "LINK": "[[a|b]]", "TEMPLATE": "{{a|b}}", "TEMPLATE_ARG": "{{{a|b}}}", "PARSER_FN": "{{#if:a|b}}", "URL": "[http://a b]", "ITALIC": "''b''", "BOLD": "'''b'''",
+    "MAGIC_WORD": "__TOC__", "PRE": "<pre>b</pre>",
+}
+
+
+def _pick_tw(x, n: int) -> int:
+    for v in range(n):
+        if x == v:
+            return v
+    raise AssertionError("outside the precondition")
+
+
+def _tw_node(ki: int, ti: int, has_children: bool, has_attrs: bool):
+    kind = TW_KINDS[ki]
+    n = HTMLNode(1) if kind == NodeKind.HTML else WikiNode(kind, 1)
+    if kind == NodeKind.HTML:
+        n.sarg = TW_TAGS[ti]
+    elif kind in (NodeKind.LIST, NodeKind.LIST_ITEM):
+        n.sarg = "*"
+    elif kind == NodeKind.MAGIC_WORD:
+        n.sarg = "__TOC__"
+    if kind in (NodeKind.LINK, NodeKind.TEMPLATE, NodeKind.TEMPLATE_ARG, NodeKind.PARSER_FN, NodeKind.URL) or kind.name.startswith("LEVEL"):
+        n.largs = [["a"], ["b"]] if kind != NodeKind.PARSER_FN else [["#if"], ["a"], ["b"]]
+    if has_children:
+        n.children.append("c")
+    if has_attrs:
+        n.attrs["class"] = "k"
+    return n
+
+
+def towt_total(ki, ti, has_children, has_attrs) -> bool:
+    from crosshair.tracers import NoTracing, is_tracing
+
+    if is_tracing():
+        ki, ti = _pick_tw(ki, len(TW_KINDS)), _pick_tw(ti, len(TW_TAGS))
+        has_children, has_attrs = (True if has_children else False), (True if has_attrs else False)
+        with NoTracing():
+            return isinstance(to_wikitext(_tw_node(ki, ti, has_children, has_attrs)), str)
+    return isinstance(to_wikitext(_tw_node(ki, ti, has_children, has_attrs)), str)
+
+
+def replay_towt(ki, ti, has_children, has_attrs):
+    """through parse(): the construct in the attribute region of a table and of a table row"""
+    kind = TW_KINDS[ki]
+    tag = TW_TAGS[ti]
+    attrs = ' class="k"' if has_attrs else ""
+    if kind == NodeKind.HTML:
+        srcs = ["<" + tag + attrs + ">c</" + tag + ">"] if has_children else ["</" + tag + ">", "<" + tag + attrs + "/>", "<" + tag + attrs + "></" + tag + ">"]
+    else:
+        srcs = [TW_SRC.get(kind.name, "x")]
+    for ext in (False, True):
+        for src in srcs:
+            for doc in ("{| " + src + "\n|-\n| x\n|}", "{|\n|- " + src + "\n| x\n|}"):
+                w = Wtp(quiet=True, quiet_output=True, extension_tags={"foo": {"parents": ["phrasing"], "content": ["phrasing"]}}) if ext else Wtp(quiet=True, quiet_output=True)
+                w.start_page("T")
+                try:
+                    root = w.parse(doc)
+                    bad, what = not (isinstance(root, WikiNode) and root.kind == NodeKind.ROOT), "parse() does not return a ROOT node"
+                except Exception as e:  # noqa: BLE001
+                    bad, what = True, f"parse() raises {type(e).__name__}: {e}"
+                if bad:
+                    return ("parse(" + repr(doc) + ")" + (" on Wtp(extension_tags={'foo': ...})" if ext else ""), True, what)
+    return ("parse() of tables with a " + kind.name + " node in the attribute region", False, "")
